@@ -1,4 +1,4 @@
-"""C11 — TSIG (spec/Tsig.tla, spec/MC_Tsig.tla, spec/Trace_Tsig.tla)."""
+"""C11 — TSIG (spec/Tsig.tla, spec/MC_Tsig.tla, spec/MC_TsigKeys.tla, spec/Trace_Tsig.tla)."""
 import json
 import os
 import vlib
@@ -6,7 +6,7 @@ import vlib
 ACTIONS = ["ClientRequest", "ClientRecompose", "AdvFlipBody", "AdvFlipMac", "AdvTruncMac", "AdvExtendMac", "AdvRenameKey",
            "AdvRecaseKey", "AdvSwapAlg", "AdvChangeOrigId", "AdvRewriteId", "AdvShiftTime",
            "AdvStripTsig", "AdvMoveTsig", "AdvDupTsig", "AdvSetErr", "AdvSetOther",
-           "AdvForgeErr", "AdvInsertUnsigned", "ServerRequest", "ServerErrorResponse",
+           "AdvForgeErr", "AdvInsertUnsigned", "AdvAlgName", "AdvKeyName", "AdvClassTtl", "AdvLengths", "ServerRequest", "ServerErrorResponse",
            "ServerAnswer", "RfcAnswer", "RfcUnsigned", "ClientAnswer", "ClientDone"]
 
 # deviation -> invariant of MC_Tsig that documents it
@@ -16,7 +16,26 @@ DEVS = {
     "D_server_badsig_formerr": "TamperRejected",
     "D_server_error_panic": "NoPanic",
     "D_other_not6_unsigned": "TamperRejected",
+    "D_tsig_class_ttl_unchecked": "AcceptedWasSigned",
 }
+# spec-level mutants (never open): module, switch -> invariant that notices it
+MUTANTS = [("MC_Tsig", "M_alg_first_label", "TamperRejected"),
+           ("MC_Tsig", "M_alg_first_label", "AcceptedWasSigned"),
+           ("MC_TsigKeys", "M_alg_first_label", "NamesPerRfc"),
+           ("MC_TsigKeys", "M_len_floor_min", "AdmittedPerRfc"),
+           ("MC_TsigKeys", "M_len_floor_min", "NoShortMacAccepted")]
+KEY_ACTIONS = ["KeyNew", "KeySign", "PresentToServer", "PresentToClient", "AlgName", "AlgStr", "AlgShow"]
+KEY_INVS = ["AdmittedPerRfc", "SignsWithSigningLen", "NoShortMacAccepted", "DecisionPerPolicy",
+            "NamesPerRfc", "NamesRoundTrip"]
+KEYS_TEMPLATE = """CONSTANTS
+  Dev = {%(dev)s}
+  Grid = "%(grid)s"
+  PresentAll = %(pall)s
+  MaxLabels = %(labels)d
+SPECIFICATION Spec
+%(invs)s
+CHECK_DEADLOCK FALSE
+"""
 
 META = {
     "category": "model_checking",
@@ -38,25 +57,60 @@ GEN_TEMPLATE = """CONSTANTS
   RcKeys <- %(rckeys)s
   Retries = %(retries)d
   T0 = %(t0)d
+  StructKinds <- %(struct)s
 SPECIFICATION Spec
 %(invs)s
 CHECK_DEADLOCK FALSE
 """
 
 MC_INVS = ["HonestVerifies", "TamperRejected", "ClocksRejected", "WindowEnforced", "PolicyRejected",
-           "RestoresOctets", "LayoutFollowsRfc", "UnsignedBound", "NoPanic"]
+           "RestoresOctets", "LayoutFollowsRfc", "UnsignedBound", "NoPanic", "AcceptedWasSigned"]
 
 
 def write_cfg(ctx, name, **kw):
     d = dict(dev="", keys="KeysQuick", modes='"txn", "seq"', servers='"impl", "rfc"',
              clocks="ClocksQuick", maxans=3, bursts="99, 100", faults="TRUE", retries=1, t0=1000000, rckeys="RcKeysQuick",
-             invs="INVARIANT Emit")
+             struct="StructAll", invs="INVARIANT Emit")
     d.update(kw)
     path = os.path.join(ctx.work, name + ".cfg")
     with open(path, "w") as f:
         f.write(GEN_TEMPLATE % d)
     # ctx.tlc runs in spec/; a relative path to the work dir keeps spec/ clean
     return os.path.relpath(path[:-4], vlib.SPEC)
+
+
+def write_keys_cfg(ctx, name, **kw):
+    d = dict(dev="", grid="full", pall="FALSE", labels=3, invs="INVARIANT Emit")
+    d.update(kw)
+    path = os.path.join(ctx.work, name + ".cfg")
+    with open(path, "w") as f:
+        f.write(KEYS_TEMPLATE % d)
+    return os.path.relpath(path[:-4], vlib.SPEC)
+
+
+def allowed(op, o, res):
+    """the specification admits a set of results (`allow'): the executor
+    reports any member of the set as the set"""
+    allow = sorted(o.get("allow") or [])
+    if len(allow) > 1 and res in allow:
+        op["allow"] = allow
+        return "|".join(allow)
+    return res
+
+
+def conv_keys(ops, outs):
+    """expectations for the behaviours of MC_TsigKeys"""
+    exp = []
+    for op, o in zip(ops, outs):
+        k = op["op"]
+        if k == "k_sign":
+            op["macref"] = {"j": o["mac"], "n": o["n"]}
+            exp.append({"res": "Ok", "mac": "ideal", "rr": "ok"})
+        elif k in ("present", "from_name", "from_str"):
+            exp.append({"res": allowed(op, o, o["res"])})
+        else:
+            exp.append(o)
+    return exp
 
 
 SIGN_OPS = ("c_request", "s_answer", "s_error")
@@ -85,6 +139,7 @@ def conv(ops, outs, diff, devname, wrap=False):
     """per-op expectation in the executor's observation format; annotates ops"""
     exp = []
     prev = None
+    prev_out = None
     for op, o in zip(ops, outs):
         k = op["op"]
         if k in SIGN_OPS:
@@ -110,6 +165,9 @@ def conv(ops, outs, diff, devname, wrap=False):
             if allow and res in allow:
                 op["allow"] = allow
                 res = "|".join(allow)
+            elif not allow and prev is not None and prev["op"] == "adv":
+                # where the specification admits several results (MC_Tsig!ExpectAfter)
+                res = allowed(op, prev_out, res)
             e = {"res": res, "restored": o["restored"]}
             if k == "c_answer":
                 e["left"] = o["left"]
@@ -120,6 +178,7 @@ def conv(ops, outs, diff, devname, wrap=False):
         else:
             exp.append({"res": o["res"]})
         prev = op
+        prev_out = o
     return exp
 
 
@@ -244,6 +303,8 @@ def gen_params(thorough, dev=None):
         kw.update(clocks="ClocksNone", maxans=1)
     elif dev == "D_other_not6_unsigned":
         kw.update(clocks="ClocksNone")
+    elif dev == "D_tsig_class_ttl_unchecked":
+        kw.update(clocks="ClocksNone", rckeys="RcKeysNone", struct="ClassTtlKinds")
     return kw
 
 
@@ -278,12 +339,14 @@ def explain_trace(ctx, trace, label):
 
 def run(ctx):
     thorough = ctx.tier == "thorough"
-    ctx.build("replay_tsig", "record_tsig", "replay_tsigw")
+    ctx.build("replay_tsig", "record_tsig", "replay_tsigw", "replay_tsigkeys")
 
-    # 1. TLC decides the property on the specification (no deviation)
+    # 1. TLC decides the property on the specification (no deviation); the same
+    # exhaustive run emits every explored behaviour for stage 2 (invariant Emit)
     mc_kw = gen_params(thorough)
-    mc_cfg = write_cfg(ctx, "mc", invs="\n".join("INVARIANT " + i for i in MC_INVS), **mc_kw)
-    mc = ctx.tlc("MC_Tsig", mc_cfg, workers=8, label="mc")
+    gen_ideal = os.path.join(ctx.work, "gen-ideal.ndjson")
+    mc_cfg = write_cfg(ctx, "mc", invs="\n".join("INVARIANT " + i for i in MC_INVS + ["Emit"]), **mc_kw)
+    mc = ctx.tlc("MC_Tsig", mc_cfg, workers=8, label="mc", cases_to=gen_ideal)
     ctx.require_ok(mc, "MC_Tsig")
     ctx.require_actions(mc, ACTIONS)
     ctx.exhaustive_flags.append(True)
@@ -297,12 +360,57 @@ def run(ctx):
                     coverage=False, count=False)
         if not r.ok:
             raise vlib.ToolError("deviation %s does not violate %s in the model" % (dev, inv))
+    # ... and so does each spec-level mutant (a first-label-only algorithm lookup,
+    # a min() in place of max() in the length floor)
+    for module, mut, inv in (MUTANTS if thorough else []):
+        if module == "MC_Tsig":
+            cfg = write_cfg(ctx, "mut-%s-%s" % (mut, inv), dev='"%s"' % mut, invs="INVARIANT " + inv,
+                            clocks="ClocksNone", maxans=1, rckeys="RcKeysNone")
+        else:
+            cfg = write_keys_cfg(ctx, "mutk-%s-%s" % (mut, inv), dev='"%s"' % mut, invs="INVARIANT " + inv,
+                                 grid="edges", labels=2)
+        r = ctx.tlc(module, cfg, workers=4, label="mut-%s-%s" % (mut, inv), expect_violation=inv,
+                    coverage=False, count=False)
+        if not r.ok:
+            raise vlib.ToolError("mutant %s does not violate %s of %s" % (mut, inv, module))
+
+    # 1b + 2c. the key-configuration space (Key::new / Key::generate with every
+    # (algorithm, min_mac_len, signing_len); every admitted key signs and receives
+    # MACs of 0 .. native + 1 octets as a server and as a client) and the names of
+    # algorithms: TLC checks the RFC 8945 5.2.2.1 / 6 invariants and generates the
+    # behaviours in the same run
+    gen_keys = os.path.join(ctx.work, "gen-keys.ndjson")
+    kcfg = write_keys_cfg(ctx, "mc-keys", pall="TRUE" if thorough else "FALSE",
+                          invs="\n".join("INVARIANT " + i for i in KEY_INVS + ["Emit"]))
+    km = ctx.tlc("MC_TsigKeys", kcfg, workers=8, label="mc-keys", cases_to=gen_keys)
+    ctx.require_ok(km, "MC_TsigKeys")
+    ctx.require_actions(km, KEY_ACTIONS)
+    kcases = os.path.join(ctx.work, "cases-keys.ndjson")
+    nk = 0
+    kinds = {}
+    with open(kcases, "w") as f:
+        for key, out in sorted(load_gen(gen_keys).items()):
+            cin = json.loads(key)
+            exp = conv_keys(cin["ops"], out["ops"])
+            cin["terms"] = {"ideal": out["macs"]}
+            last = cin["ops"][-1]["op"]
+            kinds[last] = kinds.get(last, 0) + 1
+            f.write(json.dumps({"in": cin, "exp": exp}, separators=(",", ":")) + "\n")
+            nk += 1
+    if nk < 5000 or any(kinds.get(k, 0) == 0 for k in ("key_new", "k_sign", "present", "from_name", "from_str", "to_name")):
+        raise vlib.ToolError("generator produced too few key behaviours (%d, %s)" % (nk, kinds))
+    ctx.stage("merge-keys", {"behaviours": nk, "ending_in": kinds})
+    head = os.path.join(ctx.work, "head-keys.ndjson")
+    with open(kcases) as f, open(head, "w") as h:
+        for i, line in enumerate(f):
+            if i >= 20:
+                break
+            h.write(line)
+    rc, out, err, _ = ctx.run_bin("replay_tsigkeys", ["--selftest-perturb"], stdin_path=head)
+    ctx.selftest("perturbed expectation is reported by replay_tsigkeys", "FAIL " in out)
+    ctx.replay_cases("replay_tsigkeys", kcases, label="tsig-keys")
 
     # 2. S->I: every explored behaviour, with the expectation under every open deviation
-    gen_ideal = os.path.join(ctx.work, "gen-ideal.ndjson")
-    g = ctx.tlc("MC_Tsig", write_cfg(ctx, "gen", **gen_params(thorough)), workers=8, label="gen",
-                coverage=False, cases_to=gen_ideal, count=False)
-    ctx.require_ok(g, "Gen_Tsig")
     dev_paths = {}
     for dev in sorted(ctx.open_devs):
         if dev not in DEVS:
@@ -341,7 +449,11 @@ def run(ctx):
     # (re-composes on retry) -> TsigMiddlewareSvc -> scripted service; honest clocks,
     # Time Signed symbolic (T0 = SymTime)
     gen_wrap = os.path.join(ctx.work, "gen-wrap.ndjson")
+    # (the wrappers' cases carry no deviant expectations: while the CLASS / TTL
+    # deviation is open those mutations are left to the base-API executor)
+    wstruct = "StructNoClassTtl" if "D_tsig_class_ttl_unchecked" in ctx.open_devs else "StructAll"
     gw = ctx.tlc("MC_Tsig", write_cfg(ctx, "gen-wrap", servers='"impl"', clocks="ClocksNone", t0=6000, rckeys="RcKeysNone",
+                                      struct=wstruct,
                                       keys="KeysThorough" if thorough else "KeysQuick",
                                       maxans=4 if thorough else 3),
                  workers=8, label="gen-wrap", coverage=False, cases_to=gen_wrap, count=False)
